@@ -225,7 +225,7 @@ def in_domain(req):
         if t[0] == "hop.pypnm":
             return 1 <= int(t[1]) <= 64
         if t[0] == "hop.freq":
-            return int(t[1]) != 1 or (0 <= int(t[2]) <= 63 and 0 <= int(t[3]) <= 63 and 0 <= int(t[4]) < H and 1 <= _ma_len(t[5]) <= 64)
+            return int(t[1]) == 0 or (0 <= int(t[2]) <= 63 and 0 <= int(t[3]) <= 63 and 0 <= int(t[4]) < H and 1 <= _ma_len(t[5]) <= 64)
         if t[0] == "hop.seq":
             for op in " ".join(t[4:]).split(";"):
                 o = op.split()
